@@ -39,6 +39,7 @@
 
 /* #include "misc.h" */
 #include "bpm.h"
+#include "kalign_verif.h"
 
 #define NODESIZE 16
 
@@ -144,6 +145,7 @@ float** d_estimation(struct msa* msa, int* samples, int num_samples,int pair)
                                 int s = (l1 + l2) / 2;
                                 float add = MACRO_MIN(10000.0, s) / 10000.0;
                                 dm[i][j] += add;
+                                KALIGN_VERIF_EVENT(KV_DIST_CELL, dm, i, j, 0);
                                 /* fprintf(stdout,"%f ",dm[i][j]); */
                                 /* dm[i][j] += (float)MACRO_MIN(l1, l2) / (float)MACRO_MAX(l1, l2); */
                                 /* dm[i][j] = dm[i][j] / (float) MACRO_MIN(l1, l2); */
